@@ -1,2 +1,424 @@
-/- placeholder index until the relational development is merged -/
-import PyXABProofs.Props.C06
+/-
+  Property group C15: "the sequence of points depends only on the order of the
+  pull / receive_reward calls, not on the values passed as `time`; calling `get_last_point`
+  between rounds any number of times changes nothing in the subsequent run (T-HOO, HCT, VHCT,
+  Zooming, POO)."
+
+  1. Time irrelevance.
+     * `HOO.pull`, `HCT.pull`, `Zooming.pull` and every `receive` of these models take no time
+       argument at all: for them the statement holds by construction of the models.
+     * `SOO`, `DOO`, `SequOOL`, `VROOM`: `pull … time …` only stores the label in `iteration`.
+       `…EqExceptIter s s'` = "all fields equal except `iteration`".
+     * `POO` / `GPO`, generic in the base learner: if the base learner ignores `time`, so do the
+       wrappers.
+     * `StoSOO` is excluded by the property (it compares `time` with the budget `n`):
+       `StoSOO_pull_depends_on_time`.
+  2. Query harmlessness: `pull` (which is what `get_last_point` calls in T-HOO; for HCT / VHCT /
+     Zooming an extra `pull` is the strongest possible query) is idempotent, so any number of
+     extra calls before a round changes nothing; POO generically in the base learner.
+
+  Vocabulary: `Spec/RelSpec.lean`; helper lemmas: `Lemmas/RL_*.lean`.
+-/
+import PyXABProofs.Lemmas.RL_Time
+import PyXABProofs.Lemmas.RL_Runs
+import PyXABProofs.Lemmas.RL_POO2
+
+namespace PyXAB.C15
+open Rel RL
+set_option linter.unusedSectionVars false
+
+/-! ## 1. Time irrelevance -/
+
+section sweep
+variable {α S : Type} [Add α] [Sub α] [Mul α] [Div α] [OfNat α 2] [NatCast α]
+variable [LE S] [DecidableLE S] [Inhabited S]
+
+/-- SOO: `pull` on related states with two different time labels fails with the same exception
+or returns the same cell and the same remaining draws, in related states. -/
+theorem SOO_pull_time_irrelevant (negInf : S) {s s' : SOO α S} (h : SOOEqExceptIter s s')
+    (t t' : Nat) (ds : List (Draw α)) :
+    RelRes SOOEqExceptIter Eq (SOO.pull negInf s t ds) (SOO.pull negInf s' t' ds) :=
+  soo_pull_time negInf h t t' ds
+
+theorem SOO_receive_preserves {s s' : SOO α S} (h : SOOEqExceptIter s s') (r : S) :
+    RelRes1 SOOEqExceptIter (SOO.receive s r) (SOO.receive s' r) :=
+  soo_receive_time h r
+
+/-- SOO, whole runs: two label sequences, same draws and rewards ⇒ the same exception, or the same
+sequence of cells and final states that differ in `iteration` only. -/
+theorem time_irrelevant_SOO (negInf : S) {s s' : SOO α S} (h : SOOEqExceptIter s s')
+    (inputs inputs' : List (TIn α S)) (hu : untimed inputs = untimed inputs') :
+    RelRes SOOEqExceptIter Eq (runM (sooRound negInf) s inputs) (runM (sooRound negInf) s' inputs') ∧
+      outs (runM (sooRound negInf) s inputs) = outs (runM (sooRound negInf) s' inputs') := by
+  have key := runM_rel (Rs := SOOEqExceptIter) (Q := Eq) (I := fun x x' => x.2 = x'.2)
+    (fun a b x x' hab hx => soo_round_time negInf hab x x' hx) inputs inputs' s s' h
+    (forall₂_of_map_eq _ _ _ _ hu)
+  exact ⟨RelRes.mono key (fun _ _ h => h) (fun _ _ h => List.forall₂_eq_eq_eq ▸ h), outs_eq_of_rel key⟩
+
+/-- in particular from the initial state -/
+theorem time_irrelevant_SOO_init (negInf : S) (k : Kind) (domain : Box α) (hmax : Nat)
+    (inputs inputs' : List (TIn α S)) (hu : untimed inputs = untimed inputs') :
+    outs (runM (sooRound negInf) (SOO.init negInf k domain hmax) inputs) =
+      outs (runM (sooRound negInf) (SOO.init negInf k domain hmax) inputs') :=
+  (time_irrelevant_SOO negInf (soo_eqExceptIter_refl _) inputs inputs' hu).2
+
+theorem DOO_pull_time_irrelevant (cfg : DOOCfg α S) {s s' : DOO α S} (h : DOOEqExceptIter s s')
+    (t t' : Nat) (ds : List (Draw α)) :
+    RelRes DOOEqExceptIter Eq (DOO.pull cfg s t ds) (DOO.pull cfg s' t' ds) :=
+  doo_pull_time cfg h t t' ds
+
+theorem DOO_receive_preserves {s s' : DOO α S} (h : DOOEqExceptIter s s') (r : S) :
+    RelRes1 DOOEqExceptIter (DOO.receive s r) (DOO.receive s' r) :=
+  doo_receive_time h r
+
+theorem time_irrelevant_DOO (cfg : DOOCfg α S) {s s' : DOO α S} (h : DOOEqExceptIter s s')
+    (inputs inputs' : List (TIn α S)) (hu : untimed inputs = untimed inputs') :
+    RelRes DOOEqExceptIter Eq (runM (dooRound cfg) s inputs) (runM (dooRound cfg) s' inputs') ∧
+      outs (runM (dooRound cfg) s inputs) = outs (runM (dooRound cfg) s' inputs') := by
+  have key := runM_rel (Rs := DOOEqExceptIter) (Q := Eq) (I := fun x x' => x.2 = x'.2)
+    (fun a b x x' hab hx => doo_round_time cfg hab x x' hx) inputs inputs' s s' h
+    (forall₂_of_map_eq _ _ _ _ hu)
+  exact ⟨RelRes.mono key (fun _ _ h => h) (fun _ _ h => List.forall₂_eq_eq_eq ▸ h), outs_eq_of_rel key⟩
+
+theorem SequOOL_pull_time_irrelevant (negInf : S) {s s' : SequOOL α S} (h : SeqEqExceptIter s s')
+    (t t' : Nat) (ds : List (Draw α)) :
+    RelRes SeqEqExceptIter Eq (SequOOL.pull negInf s t ds) (SequOOL.pull negInf s' t' ds) :=
+  seq_pull_time negInf h t t' ds
+
+theorem SequOOL_receive_preserves {s s' : SequOOL α S} (h : SeqEqExceptIter s s') (r : S) :
+    RelRes1 SeqEqExceptIter (SequOOL.receive s r) (SequOOL.receive s' r) :=
+  seq_receive_time h r
+
+theorem time_irrelevant_SequOOL (negInf : S) {s s' : SequOOL α S} (h : SeqEqExceptIter s s')
+    (inputs inputs' : List (TIn α S)) (hu : untimed inputs = untimed inputs') :
+    RelRes SeqEqExceptIter Eq (runM (seqRound negInf) s inputs) (runM (seqRound negInf) s' inputs') ∧
+      outs (runM (seqRound negInf) s inputs) = outs (runM (seqRound negInf) s' inputs') := by
+  have key := runM_rel (Rs := SeqEqExceptIter) (Q := Eq) (I := fun x x' => x.2 = x'.2)
+    (fun a b x x' hab hx => seq_round_time negInf hab x x' hx) inputs inputs' s s' h
+    (forall₂_of_map_eq _ _ _ _ hu)
+  exact ⟨RelRes.mono key (fun _ _ h => h) (fun _ _ h => List.forall₂_eq_eq_eq ▸ h), outs_eq_of_rel key⟩
+
+end sweep
+
+section vroom
+variable {α R S : Type} [Add α] [Sub α] [Mul α] [Div α] [OfNat α 2] [NatCast α]
+variable [LE S] [DecidableLE S] [Inhabited S] [Inhabited R]
+
+theorem VROOM_pull_time_irrelevant (cfg : VrCfg R S) {s s' : VROOM α R S} (h : VrEqExceptIter s s')
+    (t t' : Nat) (dr : VDraw α) :
+    RelRes VrEqExceptIter Eq (VROOM.pull cfg s t dr) (VROOM.pull cfg s' t' dr) :=
+  vroom_pull_time cfg h t t' dr
+
+theorem VROOM_receive_preserves (cfg : VrCfg R S) {s s' : VROOM α R S} (h : VrEqExceptIter s s')
+    (r : R) : RelRes1 VrEqExceptIter (VROOM.receive cfg s r) (VROOM.receive cfg s' r) :=
+  vroom_receive_time cfg h r
+
+theorem time_irrelevant_VROOM (cfg : VrCfg R S) {s s' : VROOM α R S} (h : VrEqExceptIter s s')
+    (inputs inputs' : List (Nat × VDraw α × R)) (hu : inputs.map (·.2) = inputs'.map (·.2)) :
+    RelRes VrEqExceptIter Eq (runM (vroomRound cfg) s inputs) (runM (vroomRound cfg) s' inputs') ∧
+      outs (runM (vroomRound cfg) s inputs) = outs (runM (vroomRound cfg) s' inputs') := by
+  have key := runM_rel (Rs := VrEqExceptIter) (Q := Eq) (I := fun x x' => x.2 = x'.2)
+    (fun a b x x' hab hx => vroom_round_time cfg hab x x' hx) inputs inputs' s s' h
+    (forall₂_of_map_eq _ _ _ _ hu)
+  exact ⟨RelRes.mono key (fun _ _ h => h) (fun _ _ h => List.forall₂_eq_eq_eq ▸ h), outs_eq_of_rel key⟩
+
+end vroom
+
+section metaAlgs
+variable {L α R S Pt ρ : Type}
+
+/-- POO over a base learner which ignores `time`: `pull` / `receive` do not depend on `time`
+(`POO.lastPoint` has no time argument). -/
+theorem POO_time_irrelevant (ops : LearnerOps L α R Pt ρ) (h : OpsIgnoreTime ops) (cfg : POOCfg R S ρ)
+    (s : POO L S) (t t' : Nat) :
+    (∀ ds, POO.pull ops cfg s t ds = POO.pull ops cfg s t' ds) ∧
+      (∀ r ds, POO.receive ops cfg s t r ds = POO.receive ops cfg s t' r ds) :=
+  ⟨fun ds => poo_pull_time ops h cfg s t t' ds, fun r ds => poo_receive_time ops h cfg s t t' r ds⟩
+
+theorem GPO_time_irrelevant [LT S] [DecidableLT S] (ops : LearnerOps L α R Pt ρ) (h : OpsIgnoreTime ops)
+    (cfg : GPOCfg R S ρ) (s : GPO L S Pt) (t t' : Nat) :
+    (∀ ds, GPO.pull ops cfg s t ds = GPO.pull ops cfg s t' ds) ∧
+      (∀ r ds, GPO.receive ops cfg s t r ds = GPO.receive ops cfg s t' r ds) :=
+  ⟨fun ds => gpo_pull_time ops h cfg s t t' ds, fun r ds => gpo_receive_time ops h cfg s t t' r ds⟩
+
+end metaAlgs
+
+section sto
+variable {α R S : Type} [Add α] [Sub α] [Mul α] [Div α] [OfNat α 2] [NatCast α]
+variable [LE S] [DecidableLE S] [Inhabited S] [Inhabited R]
+
+/-- StoSOO is rightly excluded: with a label beyond the budget `pull` never returns. -/
+theorem StoSOO_pull_depends_on_time (cfg : StoCfg S R) (s : StoSOO α R S) (time : Nat)
+    (ds : List (Draw α)) (h : cfg.n < time) : StoSOO.pull cfg s time ds = .error .outOfFuel :=
+  sto_pull_late cfg s time ds h
+
+end sto
+
+/-- concrete counterexample: same state, same draws, `time = 1` succeeds, `time = 6 > n` does not -/
+def exSto : StoCfg Nat Nat where
+  negInf := 0
+  inf := 10
+  zero := 0
+  n := 5
+  meanOf := fun _ _ => 0
+  bOf := fun m _ => m
+  countLT := fun c => decide (c < 1)
+  hmax := 3
+
+theorem StoSOO_time_counterexample :
+    (StoSOO.pull exSto (StoSOO.init exSto .binary ([⟨0, 1⟩] : Box Nat)) 1 []).toOption.map (·.2.2) = some 0 ∧
+      StoSOO.pull exSto (StoSOO.init exSto .binary ([⟨0, 1⟩] : Box Nat)) 6 [] = .error .outOfFuel :=
+  ⟨by decide +kernel, StoSOO_pull_depends_on_time _ _ _ _ (by decide)⟩
+
+/-! ## 2. Queries between rounds are harmless -/
+
+section treeBandits
+variable {α R S : Type} [Add α] [Sub α] [Mul α] [Div α] [OfNat α 2] [NatCast α]
+variable [LE S] [DecidableLE S] [Max S] [Min S] [Inhabited S] [Inhabited R]
+
+/-- T-HOO: `pull` reads the tree only and writes `path` only. -/
+theorem HOO_pull_frame {s s1 : HOO α R S} {v : Nat} (h : HOO.pull s = .ok (s1, v)) :
+    ∃ path, s1 = { s with path := some path } ∧ path.getLast? = some v :=
+  hoo_pull_frame h
+
+/-- T-HOO: the result of `pull` depends on the tree `s.P` only: on two states with the same tree
+it fails with the same exception, or returns the same cell and stores the same path. -/
+theorem HOO_pull_depends_on_tree_only (s s' : HOO α R S) (h : s'.P = s.P) :
+    RelRes (fun t t' => t'.P = t.P ∧ t'.path = t.path) Eq (HOO.pull s) (HOO.pull s') := by
+  obtain ⟨P, it, path⟩ := s
+  obtain ⟨P', it', path'⟩ := s'
+  simp only at h
+  subst h
+  simp only [HOO.pull, bind, Except.bind, pure, Except.pure]
+  split_both
+  all_goals first | exact rfl | exact ⟨⟨rfl, rfl⟩, rfl⟩
+
+/-- T-HOO: `pull` (= `get_last_point`) is idempotent. -/
+theorem HOO_pull_idempotent {s s1 : HOO α R S} {v : Nat} (h : HOO.pull s = .ok (s1, v)) :
+    HOO.pull s1 = .ok (s1, v) :=
+  hoo_pull_idem h
+
+/-- T-HOO: `pull; pull; receive` = `pull; receive`. -/
+theorem HOO_double_pull (cfg : HOOCfg R S) {s s1 : HOO α R S} {v : Nat} (h : HOO.pull s = .ok (s1, v))
+    (r : R) (ds : List (Draw α)) :
+    (match HOO.pull s1 with
+      | .error e => .error e
+      | .ok (s2, _) => HOO.receive cfg s2 r ds) = HOO.receive cfg s1 r ds := by
+  rw [hoo_pull_idem h]
+
+/-- T-HOO: a round preceded by any number of extra queries is the plain round (also when it
+fails). -/
+theorem HOO_queries_harmless (cfg : HOOCfg R S) (s : HOO α R S) (q : Nat) (r : R)
+    (ds : List (Draw α)) : hooRoundQ cfg s (q, r, ds) = HOO.round cfg s r ds :=
+  hooRoundQ_eq_round cfg s q r ds
+
+/-- T-HOO, whole runs: the query counts do not matter at all. -/
+theorem HOO_run_queries_harmless (cfg : HOOCfg R S) (s : HOO α R S)
+    (inputs : List (Nat × R × List (Draw α))) :
+    runM (hooRoundQ cfg) s inputs = runM (hooRoundQ cfg) s (inputs.map (fun x => (0, x.2))) := by
+  induction inputs generalizing s with
+  | nil => rfl
+  | cons x rest ih =>
+    obtain ⟨q, r, ds⟩ := x
+    simp only [List.map_cons, runM, hooRoundQ_eq_round cfg s q r ds, hooRoundQ_eq_round cfg s 0 r ds]
+    cases HOO.round cfg s r ds with
+    | error e => rfl
+    | ok y =>
+      obtain ⟨s1, v⟩ := y
+      simp only [ih s1]
+
+/-- HCT / VHCT: `pull` is idempotent (`tau_h` / the nodes' `tau` are recomputed from `iteration`
+and `var` only). -/
+theorem HCT_pull_idempotent (cfg : HCTCfg R S) {s s1 : HCT α R S} {v : Nat}
+    (h : HCT.pull cfg s = .ok (s1, v)) : HCT.pull cfg s1 = .ok (s1, v) :=
+  hct_pull_idem cfg h
+
+theorem HCT_queries_harmless (cfg : HCTCfg R S) (s : HCT α R S) (q : Nat) (r : R)
+    (ds : List (Draw α)) : hctRoundQ cfg s (q, r, ds) = HCT.round cfg s r ds :=
+  hctRoundQ_eq_round cfg s q r ds
+
+theorem HCT_run_queries_harmless (cfg : HCTCfg R S) (s : HCT α R S)
+    (inputs : List (Nat × R × List (Draw α))) :
+    runM (hctRoundQ cfg) s inputs = runM (hctRoundQ cfg) s (inputs.map (fun x => (0, x.2))) := by
+  induction inputs generalizing s with
+  | nil => rfl
+  | cons x rest ih =>
+    obtain ⟨q, r, ds⟩ := x
+    simp only [List.map_cons, runM, hctRoundQ_eq_round cfg s q r ds, hctRoundQ_eq_round cfg s 0 r ds]
+    cases HCT.round cfg s r ds with
+    | error e => rfl
+    | ok y =>
+      obtain ⟨s1, v⟩ := y
+      simp only [ih s1]
+
+end treeBandits
+
+section zooming
+variable {α R S : Type} [Add α] [Sub α] [Mul α] [Div α] [OfNat α 2] [NatCast α]
+variable [LE α] [DecidableLE α] [LE S] [DecidableLE S] [Inhabited S]
+
+/-- Zooming: `pull` only sets `best`. -/
+theorem Zooming_pull_frame (cfg : ZoomCfg R S) {s s1 : Zooming α S} {v : Nat × List α}
+    (h : Zooming.pull cfg s = .ok (s1, v)) : s1 = { s with best := some v.1 } :=
+  zoom_pull_frame cfg h
+
+theorem Zooming_pull_idempotent (cfg : ZoomCfg R S) {s s1 : Zooming α S} {v : Nat × List α}
+    (h : Zooming.pull cfg s = .ok (s1, v)) : Zooming.pull cfg s1 = .ok (s1, v) :=
+  zoom_pull_idem cfg h
+
+theorem Zooming_queries_harmless (cfg : ZoomCfg R S) (s : Zooming α S) (q : Nat) (r : R)
+    (ds : List (Draw α)) : zoomRoundQ cfg s (q, r, ds) = zoomRoundQ cfg s (0, r, ds) :=
+  zoomRoundQ_eq cfg s q r ds
+
+theorem Zooming_run_queries_harmless (cfg : ZoomCfg R S) (s : Zooming α S)
+    (inputs : List (Nat × R × List (Draw α))) :
+    runM (zoomRoundQ cfg) s inputs = runM (zoomRoundQ cfg) s (inputs.map (fun x => (0, x.2))) := by
+  induction inputs generalizing s with
+  | nil => rfl
+  | cons x rest ih =>
+    obtain ⟨q, r, ds⟩ := x
+    simp only [List.map_cons, runM, zoomRoundQ_eq cfg s q r ds]
+    cases zoomRoundQ cfg s (0, r, ds) with
+    | error e => rfl
+    | ok y =>
+      obtain ⟨s1, v⟩ := y
+      simp only [ih s1]
+
+end zooming
+
+section poo
+variable {L α R S Pt ρ : Type} [LT S] [DecidableLT S]
+
+/-- POO: a `get_last_point` query leaves the state in its `≈`-class (only the queried learner
+changes, within its class). -/
+theorem POO_lastPoint_equiv (ops : LearnerOps L α R Pt ρ) (E : L → L → Prop)
+    (hq : QueryHarmless ops E) {s s1 : POO L S} {v : Nat × Pt}
+    (h : POO.lastPoint ops s = .ok (s1, v)) : POOEquiv E s s1 :=
+  poo_lastPoint_equiv hq h
+
+/-- POO: `pull` and `receive` respect `≈`, with equal outputs. -/
+theorem POO_ops_respect_equiv (ops : LearnerOps L α R Pt ρ) (E : L → L → Prop)
+    (hq : QueryHarmless ops E) (cfg : POOCfg R S ρ) {s s' : POO L S} (h : POOEquiv E s s') (t : Nat) :
+    (∀ ds, RelRes (POOEquiv E) Eq (POO.pull ops cfg s t ds) (POO.pull ops cfg s' t ds)) ∧
+      (∀ r ds, RelRes (POOEquiv E) Eq (POO.receive ops cfg s t r ds) (POO.receive ops cfg s' t r ds)) :=
+  ⟨fun ds => poo_pull_resp hq cfg h t ds, fun r ds => poo_receive_resp hq cfg h t r ds⟩
+
+/-- POO, whole runs: if the run with `get_last_point` queries inserted between the rounds
+succeeds, the run without queries succeeds with the same sequence of (learner index, point) and
+an equivalent final state. -/
+theorem POO_queries_harmless (ops : LearnerOps L α R Pt ρ) (E : L → L → Prop)
+    (hq : QueryHarmless ops E) (cfg : POOCfg R S ρ) (s : POO L S) (inputs : List (PIn α R))
+    {sf : POO L S} {os : List (Nat × Pt)} (h : runM (pooRoundQ ops cfg) s inputs = .ok (sf, os)) :
+    ∃ sf', runM (pooRoundQ ops cfg) s (inputs.map (fun x => { x with queries := 0 })) = .ok (sf', os) ∧
+      POOEquiv E sf sf' :=
+  poo_runQ_sim hq cfg inputs (pooEquiv_refl hq s) h
+
+/-- POO, protocol-aware hypothesis (`RoundHarmless`: `E` between rounds, the finer `F` between a
+`pull` and its `receive`): same conclusion.  `POO_queries_harmless` is the case `F = E`. -/
+theorem POO_queries_harmless_round (ops : LearnerOps L α R Pt ρ) (E F : L → L → Prop)
+    (hq : RoundHarmless ops E F) (cfg : POOCfg R S ρ) (s : POO L S) (inputs : List (PIn α R))
+    {sf : POO L S} {os : List (Nat × Pt)} (h : runM (pooRoundQ ops cfg) s inputs = .ok (sf, os)) :
+    ∃ sf', runM (pooRoundQ ops cfg) s (inputs.map (fun x => { x with queries := 0 })) = .ok (sf', os) ∧
+      POOEquiv E sf sf' :=
+  poo_runQ_sim2 hq cfg inputs (pooEquiv_refl2 hq s) h
+
+theorem QueryHarmless_is_RoundHarmless (ops : LearnerOps L α R Pt ρ) (E : L → L → Prop)
+    (hq : QueryHarmless ops E) : RoundHarmless ops E E :=
+  QueryHarmless.toRound hq
+
+end poo
+
+section pooOverHOO
+variable {α R S S' ρ : Type} [Add α] [Sub α] [Mul α] [Div α] [OfNat α 2] [NatCast α]
+variable [LE S] [DecidableLE S] [Max S] [Min S] [Inhabited S] [Inhabited R]
+variable [LT S'] [DecidableLT S']
+
+/-- T-HOO (an instance together with its configuration) is a `RoundHarmless` base learner:
+`E` = same configuration, tree and round counter (the stored `path` is ignored), `F` = equality.
+(It is NOT `QueryHarmless` for this `E`: `receive_reward` reads the `path` stored by the `pull`
+of the same round, which is exactly what the protocol-aware formulation accounts for.) -/
+theorem HOO_is_RoundHarmless (mk : ρ → HOOCfg R S × Kind × Box α) :
+    RoundHarmless (hooLearner (α := α) mk) HOOSameTree Eq :=
+  hooLearner_roundHarmless mk
+
+/-- POO over T-HOO base learners: `get_last_point` queries between the rounds of a successful
+run change neither the sequence of (learner index, pulled cell) nor, up to the learners' stored
+paths, the final state. -/
+theorem POO_over_HOO_queries_harmless (mk : ρ → HOOCfg R S × Kind × Box α) (cfg : POOCfg R S' ρ)
+    (s : POO (HOOCfg R S × HOO α R S) S') (inputs : List (PIn α R))
+    {sf : POO (HOOCfg R S × HOO α R S) S'} {os : List (Nat × Nat)}
+    (h : runM (pooRoundQ (hooLearner mk) cfg) s inputs = .ok (sf, os)) :
+    ∃ sf', runM (pooRoundQ (hooLearner mk) cfg) s (inputs.map (fun x => { x with queries := 0 })) =
+        .ok (sf', os) ∧ POOEquiv HOOSameTree sf sf' :=
+  poo_runQ_sim2 (hooLearner_roundHarmless mk) cfg inputs (pooEquiv_refl2 (hooLearner_roundHarmless mk) s) h
+
+end pooOverHOO
+
+/-! ### non-vacuity of the POO statement: a base learner with a cache which `pull` refreshes -/
+
+/-- state = (core, cache); `pull` proposes `core` and overwrites the cache, `receive` adds the
+reward to the core and keeps the cache -/
+def exOps : LearnerOps (Nat × Nat) Nat Nat Nat Unit where
+  create := fun _ ds => .ok ((0, 0), ds)
+  pull := fun l _ => .ok ((l.1, l.1 + 1), l.1)
+  receive := fun l _ r ds => .ok ((l.1 + r, l.2), ds)
+
+/-- `≈` = same core (the cache is ignored) -/
+theorem exOps_queryHarmless : QueryHarmless exOps (fun a b => a.1 = b.1) where
+  refl := fun _ => rfl
+  symm := fun _ _ h => h.symm
+  trans := fun _ _ _ h h' => h.trans h'
+  pull_stay := by
+    intro l t l' p h
+    simp only [exOps, Except.ok.injEq, Prod.mk.injEq] at h
+    rw [← h.1]
+  pull_resp := by
+    intro l₁ l₂ t h
+    exact ⟨h, h⟩
+  recv_resp := by
+    intro l₁ l₂ t r ds h
+    exact ⟨by show l₁.1 + r = l₂.1 + r; rw [h], rfl⟩
+
+def exPCfg : POOCfg Nat Nat Unit where
+  cond := fun N n => decide (N ≤ n)
+  rhoOf := fun _ _ => ()
+  upd := fun v k r => (v * k + r) / (k + 1)
+  zero := 0
+
+def exPIn : List (PIn Nat Nat) :=
+  [⟨0, 1, [], 3, []⟩, ⟨2, 2, [], 5, []⟩, ⟨1, 3, [], 1, []⟩, ⟨3, 4, [], 2, []⟩, ⟨1, 5, [], 7, []⟩]
+
+/-- the run with queries succeeds (5 rounds, 7 queries), so `POO_queries_harmless` applies -/
+example : ((runM (pooRoundQ exOps exPCfg) (POO.init : POO (Nat × Nat) Nat) exPIn).toOption.map
+    (fun r => r.2.length)) = some 5 := by decide +kernel
+
+/-- and (evaluated independently) the outputs without the queries are the same -/
+example : (outs (runM (pooRoundQ exOps exPCfg) (POO.init : POO (Nat × Nat) Nat) exPIn)).toOption =
+    (outs (runM (pooRoundQ exOps exPCfg) (POO.init : POO (Nat × Nat) Nat)
+      (exPIn.map (fun x => { x with queries := 0 })))).toOption := by decide +kernel
+
+/-! ### POO over concrete T-HOO learners (evaluated by the kernel) -/
+
+def exHCfg : HOOCfg Nat Nat where
+  inf := 1000
+  negInf := 0
+  mean0 := 0
+  meanOf := fun rs n => rs.sum / n
+  uOf := fun m c d => m + 10 / c + (4 - d)
+  expandOK := fun d => decide (d ≤ 2)
+
+def exMk : Unit → HOOCfg Nat Nat × Kind × Box Nat := fun _ => (exHCfg, .binary, [⟨0, 16⟩])
+
+def exPIn' : List (PIn Nat Nat) :=
+  [⟨0, 1, [⟨0, []⟩], 3, [⟨0, []⟩]⟩, ⟨2, 2, [⟨0, []⟩], 5, [⟨0, []⟩]⟩, ⟨1, 3, [⟨0, []⟩], 1, [⟨0, []⟩]⟩,
+   ⟨3, 4, [⟨0, []⟩], 2, [⟨0, []⟩]⟩, ⟨1, 5, [⟨0, []⟩], 7, [⟨0, []⟩]⟩]
+
+/-- the run with queries succeeds, so `POO_over_HOO_queries_harmless` applies -/
+example : ((runM (pooRoundQ (hooLearner exMk) exPCfg) POO.init exPIn').toOption.map
+    (fun r => r.2.length)) = some 5 := by decide +kernel
+
+example : (outs (runM (pooRoundQ (hooLearner exMk) exPCfg) POO.init exPIn')).toOption =
+    (outs (runM (pooRoundQ (hooLearner exMk) exPCfg) POO.init
+      (exPIn'.map (fun x => { x with queries := 0 })))).toOption := by decide +kernel
+
+end PyXAB.C15
